@@ -3,6 +3,7 @@ use core::ops::{Deref, DerefMut};
 /// Toggle is similar to Option, except that even in the Off/"None" case, there is still
 /// an owned allocated inner object. This is useful for holding onto pre-allocated objects
 /// that can be toggled as enabled.
+#[derive(Clone, Copy)]
 pub struct Toggle<T> {
     inner: T,
     on:    bool,
